@@ -782,6 +782,9 @@ func concat(a ...MalType) (MalType, error) {
 	if e != nil {
 		return nil, e
 	}
+	// cap the slice so that append copies instead of writing into the first
+	// argument's spare capacity (which other values may share)
+	slc1 = slc1[:len(slc1):len(slc1)]
 	for i := 1; i < len(a); i += 1 {
 		slc2, e := GetSlice(a[i])
 		if e != nil {
